@@ -205,9 +205,7 @@ def mvccStepW (d : Db) (ws : List String) : Db × String :=
     let plan := d.lsm.dropPlan pfx
     (d, "plan " ++ String.intercalate ";" (plan.map (fun (lvl, gs) =>
       s!"L{lvl}:" ++ String.join (gs.map (fun g => "[" ++ String.intercalate "," (g.map toString) ++ "]")))))
-  | ["dropall"] =>
-    let o := if d.opts.inMemory then { d.opts with threshold := 2147483647 } else d.opts
-    ({ d with lsm := Lsm.init d.opts.maxLevels, opts := o }, "ok")
+  | ["dropall"] => (d.dropAll, "ok")   -- `Db.dropAll` (Drop.lean): the step `DbReach.dropall` of the composed theorems
   -- Close (its memtable flush arrives as a separate `flush` line before this one) + Open
   | "reopen" :: _ =>
     if d.opts.inMemory then (d, "err:inmem") else
